@@ -81,6 +81,10 @@ def run(chk, replay=None):
             sstr = dt.strftime('%Y-%m-%d %H:%M:%S')
         elif variant == 2:
             sstr = dt.strftime('%Y-%m-%d %H:%M:%S.%f') + '+00:00'
+            if idx % 8 == 2 and msd % 1000:
+                # a shorter fraction in front of the offset: .5+00:00, .25+00:00, .123+00:00
+                frac = ('%03d' % (msd % 1000)).rstrip('0')
+                sstr = dt.strftime('%Y-%m-%d %H:%M:%S.') + frac + '+00:00'
         elif variant == 3 and msd % 1000 == 0:
             sstr = dt.strftime('%Y-%m-%d %H:%M:%S') + '+00:00'
         else:
